@@ -104,6 +104,10 @@ func (p *bprover) lin(v ssa.Value) lt {
 			if b, ok := x.Call.Value.(*ssa.Builtin); ok && b.Name() == "len" {
 				return p.lenOf(x.Call.Args[0])
 			}
+			// s.size(): an accessor that returns len(receiver.field)
+			if f, ok := thinLenGetter(x.Call.StaticCallee()); ok && len(x.Call.Args) == 1 {
+				return lt{"len:" + canon(x.Call.Args[0]) + "." + f, 0}
+			}
 		case *ssa.BinOp:
 			if x.Op == token.ADD || x.Op == token.SUB {
 				if k, ok := constInt(x.Y); ok {
@@ -779,6 +783,39 @@ func (p *bprover) defFacts(s *factSet, goal dfact) {
 		}
 		if nonNegValue(v, map[ssa.Value]bool{}, 0) {
 			s.fs = append(s.fs, dfact{"0", n, 0})
+		}
+		// copy(dst, src) returns min(len(dst), len(src)); at + copy(x[at:], src) therefore never passes len(x)
+		copyOf := func(v ssa.Value) (dst, src ssa.Value, ok bool) {
+			if call, isC := v.(*ssa.Call); isC {
+				if bi, isB := call.Call.Value.(*ssa.Builtin); isB && bi.Name() == "copy" && len(call.Call.Args) == 2 {
+					return call.Call.Args[0], call.Call.Args[1], true
+				}
+			}
+			return nil, nil, false
+		}
+		if dst, src, ok := copyOf(v); ok {
+			s.fs = append(s.fs, dfact{"0", n, 0})
+			for _, a := range []ssa.Value{dst, src} {
+				l := p.lenOf(a)
+				s.fs = append(s.fs, dfact{n, l.n, l.k})
+				push(l.n)
+			}
+		}
+		if bo, isBo := v.(*ssa.BinOp); isBo && bo.Op == token.ADD {
+			for _, pr := range [][2]ssa.Value{{bo.X, bo.Y}, {bo.Y, bo.X}} {
+				at, r := pr[0], pr[1]
+				dst, _, ok := copyOf(r)
+				if !ok {
+					continue
+				}
+				if sl, isSl := dst.(*ssa.Slice); isSl && sl.Low != nil && sl.High == nil && sl.Max == nil && canon(sl.Low) == canon(at) {
+					if _, isPtr := sl.X.Type().Underlying().(*types.Pointer); !isPtr {
+						l := p.lenOf(sl.X)
+						s.fs = append(s.fs, dfact{n, l.n, l.k}) // at + copy(x[at:], ..) <= len(x)
+						push(l.n)
+					}
+				}
+			}
 		}
 		switch x := v.(type) {
 		case *ssa.Phi:
@@ -3536,4 +3573,47 @@ func (p *bprover) viaCalleeGuardProve(cf *ssa.Function, goal dfact, ln string, p
 		}
 	}
 	return any
+}
+
+// thinLenGetter: fn is a method that does nothing but return len(receiver.field); returns the field's name.
+func thinLenGetter(fn *ssa.Function) (string, bool) {
+	if fn == nil || fn.Blocks == nil || len(fn.Blocks) != 1 || fn.Signature.Recv() == nil || len(fn.Params) != 1 {
+		return "", false
+	}
+	if _, isPtr := fn.Params[0].Type().Underlying().(*types.Pointer); !isPtr {
+		return "", false
+	}
+	field := ""
+	for _, in := range fn.Blocks[0].Instrs {
+		switch x := in.(type) {
+		case *ssa.FieldAddr:
+			if x.X != ssa.Value(fn.Params[0]) || field != "" {
+				return "", false
+			}
+			field = fieldName(x)
+		case *ssa.UnOp, *ssa.DebugRef:
+		case *ssa.Call:
+			if b, ok := x.Call.Value.(*ssa.Builtin); !ok || b.Name() != "len" {
+				return "", false
+			}
+		case *ssa.Return:
+			if len(x.Results) != 1 {
+				return "", false
+			}
+			call, ok := x.Results[0].(*ssa.Call)
+			if !ok {
+				return "", false
+			}
+			u, ok := call.Call.Args[0].(*ssa.UnOp)
+			if !ok {
+				return "", false
+			}
+			if _, ok := u.X.(*ssa.FieldAddr); !ok {
+				return "", false
+			}
+		default:
+			return "", false
+		}
+	}
+	return field, field != ""
 }
